@@ -96,7 +96,8 @@ PROPS = {
         level_note="Trusted: pqref. The library's thrift schema predates RowGroup fields 5..7, which are therefore not compared.",
         fixtures=["flat24", "nest", "tiny", "deep", "samename", "rep3", "big"],
         gen_anchored=False,
-        stages=[dict(test="TestC16", kind="rapid", quick=2400, thorough=48000), dict(test="TestC16Foreign", kind="rapid", quick=1600, thorough=32000)],
+        stages=[dict(test="TestC16", kind="rapid", quick=2400, thorough=48000), dict(test="TestC16Foreign", kind="rapid", quick=1600, thorough=32000),
+                dict(test="TestC16FooterSweep", kind="enum", quick=1, thorough=1)],
         replay="TestReplayC16",
         rule="rapid workloads (as C01, <= 80 records) on five fixtures and three codecs, plus (stage 2) conformant foreign "
              "files from pqref's writer carrying optional footer/page-header fields (created_by, key/value metadata, column_orders, encoding_stats, column statistics, crc, legacy min/max); ReadMetaData converted field by field must equal pqref's footer decode; PageHeaders must equal the walker's "
@@ -125,10 +126,10 @@ PROPS = {
         level_note="Trusted: the harness's failing io.Writer, which records which API call was executing when it failed. Nothing is asserted about calls after the failing one.",
         fixtures=["tiny", "flat24", "nest"],
         gen_anchored=True,
-        stages=[dict(test="TestC09", kind="rapid", quick=48, thorough=960, timeout_thorough=3600)],
+        stages=[dict(test="TestC09", kind="rapid", quick=32, thorough=640, timeout_thorough=3600)],
         replay="TestReplayC09",
         rule="rapid workloads (<= 10 records, <= 3 batches, page size often 1..4, all codecs, fixtures tiny/flat24/nest); for every k in 1..N (N = number of Write calls "
-             "the sink sees in the fault-free run) and mode in {fail once, fail from k on, short write (n<len, err)} the history NewParquetWriter, Add.., Write.., Close is "
+             "the sink sees in the fault-free run) and mode in {fail once, fail from k on, short write (n<len, err), the first two also with a net-style Temporary()/Timeout() error and with a sink that additionally offers Seek and Truncate like *os.File} the history NewParquetWriter, Add.., Write.., Close is "
              "replayed; the API call during which the sink first failed must return a non-nil error; no panic. One evaluation = one (workload, k, mode); each is classified by "
              "the part of the file the k-th write carries (magic, page-header, page-body, footer, footer-length, trailing-magic) per codec - see class_histogram. "
              "All fault points are non-trivial (a fault is really injected); distinct by (workload hash, k, mode).",
@@ -227,7 +228,8 @@ PROPS = {
                    "Layout limits of the documented subset are respected: v1 data pages, PLAIN, chunks contiguous from byte 4 in schema order.",
         fixtures=["flat24", "nest", "tiny", "rep3"],
         gen_anchored=True,
-        stages=[dict(test="TestC04", kind="rapid", quick=2400, thorough=48000), dict(test="FuzzC04", kind="fuzz", quick=0, thorough=120, timeout_thorough=900)],
+        stages=[dict(test="TestC04", kind="rapid", quick=2400, thorough=48000), dict(test="FuzzC04", kind="fuzz", quick=0, thorough=120, timeout_thorough=900),
+                dict(test="TestC04FooterSweep", kind="enum", quick=1, thorough=1)],
         replay="TestReplayC04",
         rule="rapid: 1..3 row groups of 1..120 records on flat24/nest/tiny (lists up to 700 so that pages exceed 504 entries), written by pqref.WriteFile with, per column chunk: "
              "codec (file-wide or mixed per column), page cuts at drawn record boundaries (independent per column), per page a drawn legal segmentation of rep and def level streams "
